@@ -69,6 +69,8 @@ def probe_malformed(ctx, ex, titles, case0):
     from excel2pycl import Cell
     r = ctx.r
     probes = [(titles[0], 'A', t) for t in BAD_ROWS] + [(titles[0], c, '1') for c in BAD_COLS] + [(t, 'A', '1') for t in BAD_TITLES]
+    # positions given as numbers that are no whole number from 0
+    probes += [(0, 2.0, 0), (0, 2, 0.0), (0, 5.5, 7), (0, 2, -1), (0, -1, 0), (0, True, 0), (0, 0, False), (0, 1, 1.5), (0, (1,), 0)]
     for t in BAD_TITLES:
         o = pipeline.guarded(lambda: ex.get_sheet(t), 'evaluate')
         r.ev()
@@ -88,8 +90,8 @@ def probe_malformed(ctx, ex, titles, case0):
             r.ev()
             r.count('malformed_address_probes')
             if o.ok:
-                loose = row.strip().lstrip('+').replace('_', '')
-                named = isinstance(t, str) and t == titles[0] and c == 'A' and loose.isascii() and loose.isdigit() and int(loose) >= 1
+                loose = row.strip().lstrip('+').replace('_', '') if isinstance(row, str) else ''
+                named = isinstance(t, str) and isinstance(row, str) and t == titles[0] and c == 'A' and loose.isascii() and loose.isdigit() and int(loose) >= 1
                 if api == 'set_cells' or not named:
                     report(r, ID, None, dict(case0, api=api, address=[t, c, row]), o.brief(), 'the cell exception of the library', monitor='malformed-address')
                     if api == 'set_cells':
@@ -349,6 +351,10 @@ def run_book(ctx, bi, ncalls, replay=None, source=None):
                     check(which, (si, ri + 1, ci + 1), ('V', canon(cell.value)), 'get_sheet')
     if bi % 4 == 0:
         probe_malformed(ctx, exA, titles, case0)
+    if bi % 3 == 0 and source is None:
+        # the executor is given its class again: overrides, and the sizes that cover them, stay
+        again = pipeline.guarded(lambda: exA.set_executed_class(class_object=exA.get_executed_class().__class__), 'evaluate')
+        r.count('executed_class_set_again_before_the_size_check')
     # sizes reported after the schedule = sizes before it
     for which, ex, ov in (('A', exA, ovA_now()), ('B', exB, ovB)):
         for si in range(ns):
